@@ -13,7 +13,13 @@
    template_sets.go), which needs maps, a mutex, defer, a range loop and boolean operators.
    A third one, Spec/SpecLoaderFuncs.v (gen/LoaderFuncs.v, the loader lookup of template_sets.go),
    needs the constructors below the line "third fragment" as well; they are stuck in the other
-   two interpretations. *)
+   two interpretations.  A fourth one, Spec/SpecTagFuncs.v (gen/TagFuncs.v, the Execute methods of
+   the branching tags: tags_if.go, tags_firstof.go, tags_ifequal.go, tags_ifnotequal.go), adds
+   integer + and > ("fourth fragment"; stuck in the other three); its range loop is GSRange, whose
+   key is the index.  A fifth one, Spec/SpecTagFuncs2.v (the Execute methods of the tags that keep
+   state, also in gen/TagFuncs.v: tags_set.go, tags_autoescape.go, tags_ifchanged.go), adds the
+   comma-ok type assertion, append, make of an empty slice, %, break and x.f++ ("fifth fragment";
+   stuck in the other four). *)
 From Coq Require Export String List.
 Export ListNotations.
 
@@ -43,7 +49,15 @@ Inductive gexpr :=
 | GEMakeMap                                               (* make(map[K]V[, hint]) - a fresh empty map; the hint is dropped *)
 | GEAddr (e : gexpr)                                      (* &e, e a field selection *)
 (* --- third fragment (tools/go2v/loaderfuncs.go) --- *)
-| GEIndex (e i : gexpr).                                  (* e[i], one value; panics when i is out of range *)
+| GEIndex (e i : gexpr)                                   (* e[i], one value; panics when i is out of range *)
+(* --- fourth fragment (tools/go2v/tagfuncs.go) --- *)
+| GEAdd (a b : gexpr)                                     (* a + b on integers *)
+| GEGt (a b : gexpr)                                      (* a > b on integers *)
+(* --- fifth fragment (tools/go2v/tagfuncs.go, the tags with state) --- *)
+| GETypeAssertOk (e : gexpr) (ty : string)                (* e.( *ty) in "v, ok := e.( *ty)": two values *)
+| GEAppend (s x : gexpr)                                  (* append(s, x) *)
+| GEEmptySlice (ty : string)                              (* make([]ty, 0[, hint]), ty not byte - empty; the hint is dropped *)
+| GERem (a b : gexpr).                                    (* a % b on integers *)
 
 Inductive gstmt :=
 | GSDefine (lhs : list string) (rhs : list gexpr)         (* a, b := e   or   a, b := e1, e2 *)
@@ -66,9 +80,12 @@ Inductive gstmt :=
                                                           (* for key, val = range coll { body }: assigns existing
                                                              variables ("_" discards); a return in the body of either
                                                              range form leaves the function *)
-| GSResults (decls : list (string * string)).             (* the named results (name, type) of the function, as the first
+| GSResults (decls : list (string * string))              (* the named results (name, type) of the function, as the first
                                                              statement of its body: variables of the function's scope with
                                                              their zero values; GSReturn [] returns their current values *)
+(* --- fifth fragment --- *)
+| GSBreak                                                 (* break: leaves the innermost range loop *)
+| GSIncField (obj : gexpr) (f : string).                  (* obj.f++ *)
 
 (* func (recvname *recvtype) name(params) (nres results) { body } *)
 Record gfunc := mkGF {
